@@ -66,7 +66,8 @@ func applyTriggers(ctx *sql.Context, n sql.Node, all []*plan.CreateTrigger) (sql
 	return n, nil
 }
 
-// applyTrigger — planted: the AFTER UPDATE executor is put under the Update node.
+// applyTrigger — planted: the AFTER UPDATE executor is put under the Update node, and the Update arm places any
+// selected trigger without testing that it belongs to this node.
 func applyTrigger(ctx *sql.Context, originalNode, n sql.Node, trigger *plan.CreateTrigger) (sql.Node, error) {
 	triggerLogic, err := getTriggerLogic(ctx, originalNode, trigger)
 	if err != nil {
@@ -84,6 +85,9 @@ func applyTrigger(ctx *sql.Context, originalNode, n sql.Node, trigger *plan.Crea
 	return transformNode(n, canApplyTriggerExecutor, func(node sql.Node) (sql.Node, error) {
 		switch n := node.(type) {
 		case *plan.InsertInto:
+			if !triggerAppliesToNode(trigger, plan.InsertTrigger, n) {
+				return node, nil
+			}
 			if trigger.TriggerTime == plan.BeforeStr {
 				triggerExecutor := plan.NewTriggerExecutor(n.Source, triggerLogic, plan.InsertTrigger, plan.TriggerTime(trigger.TriggerTime))
 				return n.WithSource(triggerExecutor), nil
@@ -99,12 +103,14 @@ func applyTrigger(ctx *sql.Context, originalNode, n sql.Node, trigger *plan.Crea
 				return n.WithChildren(triggerExecutor)
 			}
 		case *plan.DeleteFrom:
-			if trigger.TriggerTime == plan.BeforeStr {
-				triggerExecutor := plan.NewTriggerExecutor(n.Child, triggerLogic, plan.DeleteTrigger, plan.TriggerTime(trigger.TriggerTime))
-				node, err := n.WithChildren(triggerExecutor)
-				return node, err
-			} else {
-				return plan.NewTriggerExecutor(n, triggerLogic, plan.DeleteTrigger, plan.TriggerTime(trigger.TriggerTime)), nil
+			if triggerAppliesToNode(trigger, plan.DeleteTrigger, n) {
+				if trigger.TriggerTime == plan.BeforeStr {
+					triggerExecutor := plan.NewTriggerExecutor(n.Child, triggerLogic, plan.DeleteTrigger, plan.TriggerTime(trigger.TriggerTime))
+					node, err := n.WithChildren(triggerExecutor)
+					return node, err
+				} else {
+					return plan.NewTriggerExecutor(n, triggerLogic, plan.DeleteTrigger, plan.TriggerTime(trigger.TriggerTime)), nil
+				}
 			}
 		}
 		return node, nil
@@ -136,4 +142,15 @@ func orderTriggersAndReverseAfter(triggers []*plan.CreateTrigger) []*plan.Create
 		beforeTriggers[left], beforeTriggers[right] = beforeTriggers[right], beforeTriggers[left]
 	}
 	return append(beforeTriggers, afterTriggers...)
+}
+
+func tableName(n sql.Node) string {
+	if a, ok := n.(*plan.TableAlias); ok {
+		return a.Name
+	}
+	return ""
+}
+
+func triggerAppliesToNode(trigger *plan.CreateTrigger, event plan.TriggerEvent, n sql.Node) bool {
+	return trigger.TriggerEvent == string(event) && len(n.Children()) > 0 && tableName(n.Children()[0]) == tableName(trigger.Table)
 }
